@@ -182,6 +182,9 @@ func init() {
 			cfg.W = map[string]int{"sub": 24, "unsub": 24, "get": 10, "call": 3, "callres": 10, "new": 5, "auth": 5, "change": 4, "add": 2, "remove": 2, "delete": 1, "reaccess": 2}
 			return cfg
 		})
+		if !c.Race {
+			c08Limit(c)
+		}
 	})
 	Register("C03", func(c *RunCtx) {
 		n := c.N(1600, 40000)
